@@ -57,6 +57,16 @@ Theorem C10_code_af : forall d0 d1 d2 d3, 0 <= d2 < 65536 ->
 Proof. intros d0 d1 d2 d3 H. split; [apply leaf_get_af1|apply leaf_get_af2]; exact H. Qed.
 Print Assumptions C10_code_af.
 
+(* THE CODE ITSELF: rdsparser_af_get and rdsparser_af_set (src/af.c), translated on every run with the
+   bitmap as a list, are the model's af_get / af_set on every 26-byte bitmap and every code 0..255
+   (so C10_bitmap_layout — code v at byte v/8, mask 0x80 >> (v mod 8), only 1..204 — is a statement
+   about these two C functions) *)
+Theorem C10_code_bitmap : forall a v, length a = 26%nat -> Forall (fun x => 0 <= x < 256) a -> 0 <= v < 256 ->
+  c_af_get a v = (if af_get a v then 1 else 0)
+  /\ af_set a v = Some (c_af_set__buffer a v, negb (c_af_set__ret a v =? 0)).
+Proof. intros a v Hl Hb Hv. split; [exact (leaf_af_get a v Hv)|exact (leaf_af_set a v Hl Hb Hv)]. Qed.
+Print Assumptions C10_code_bitmap.
+
 Example C10_scenario : check_run_u (observer_u 10) scenario = true.
 Proof. vm_compute. reflexivity. Qed.
 Example C10_marker_and_range :
